@@ -43,7 +43,7 @@ CLAIMED = {
         note="Encode/decode fidelity is a weaker fit for TLA+ than protocol properties: TLA+ decides field order, widths, byte order, the length equation and region offsets; large payload equality is a memcmp in the recorder. Server/client emission routes are covered by C03/C04 engines."),
     "C02": dict(
         category="model_checking", design_ref="DESIGN.md §5 C02",
-        technique="TLA+ verdict functions (RepeWire.SliceVerdict / HeaderVerdict / StreamVerdict, exact 64-bit arithmetic) enumerated by TLC over the boundary-class product; every vector executed on nine entry points in a child process; random and mutated buffers trace-validated by TLC",
+        technique="TLA+ verdict functions (RepeWire.SliceVerdict / HeaderVerdict / StreamVerdict, exact 64-bit arithmetic) enumerated by TLC over the boundary-class product; every vector executed on nine entry points in a child process; random and mutated buffers trace-validated by TLC; the clients' response readers (stray frames, responses cut at every byte) and the TCP servers (headers declaring unallocatable frames, in a child process) as entry points on the wire",
         text="TLC enumerates ~35 000 header vectors (each length field over 0, small, =buffer, +-1, 2^31, 2^32, 2^62, 2^63, u64::MAX-k, with totals equal to the exact sum, the sum +-1 and the wrapped sum; buffer lengths around 48; good/bad magic) with the specification's verdict per entry family. Every vector runs on Header::decode, Message/MessageView::from_slice(_exact), read_message(_into)(_async) in a child process so panics and aborts are attributed to their input; ok/err and the returned query/body regions must match. 4 000 (quick) / 40 000 (thorough) random and structurally mutated buffers are judged by TLC recomputing the verdict.",
         note="Silent out-of-bounds reads are not detectable here (they would panic in safe Rust). Stream readers get declared sizes <= 16 MiB or >= 2^62 only, as the property prescribes. Error kinds are not compared."),
     "C08": dict(
